@@ -58,24 +58,29 @@ Allowed(o) == { Transcript(s) : s \in Run(o.shape, o.req, o.steps) }
 Seen(o, t) == [msgs |-> t.msgs, term |-> t.term, hdrs |-> t.hdrs, trls |-> t.trls, reqmd |-> t.reqmd,
                srecv |-> IF HasCx(o) THEN SelectSeq(t.srecv, LAMBDA r : r.i < CxI(o)) ELSE t.srecv]
 SeqMatch(e, g) == Len(e) = Len(g) /\ \A k \in 1..Len(e) : MDMatch(e[k], g[k])
-Match(e, t) == /\ e.msgs = t.msgs /\ e.term = t.term /\ SeqMatch(e.hdrs, t.hdrs) /\ SeqMatch(e.trls, t.trls)
-               /\ e.srecv = t.srecv /\ (e.reqmd = -2 \/ e.reqmd = t.reqmd)
+\* A client that finds its own writes in a later metadata read was handed the stream's map:
+\* that is the copy clause; the metadata values of such a transcript are not judged again
+\* (they are the client's own scribble).
+OwnWrites(t0) == \E k \in 1..Len(t0.alias) : t0.alias[k] = "client-write-seen-in-later-metadata-read"
+MdMatch(e, g, own) == IF own THEN Len(e) = Len(g) ELSE SeqMatch(e, g)
+Match(e, t, own) == /\ e.msgs = t.msgs /\ e.term = t.term /\ MdMatch(e.hdrs, t.hdrs, own) /\ MdMatch(e.trls, t.trls, own)
+                    /\ e.srecv = t.srecv /\ (e.reqmd = -2 \/ e.reqmd = t.reqmd)
 
 CallFails(o, t0) ==
-  LET t == Seen(o, t0)  A == Allowed(o) IN
+  LET t == Seen(o, t0)  A == Allowed(o)  own == OwnWrites(t0) IN
   IF t0.skip THEN {}
   ELSE IF Len(t0.hang) > 0 THEN {"hang:" \o TermTag(o)}
-  ELSE (IF \E e \in A : Match(e, t) THEN {}
+  ELSE (IF \E e \in A : Match(e, t, own) THEN {}
         ELSE LET parts ==
                    If(\E e \in A : e.msgs = t.msgs, "messages:" \o TermTag(o))
                    \cup If(\E e \in A : e.term = t.term, "outcome:" \o TermTag(o))
-                   \cup If(\E e \in A : SeqMatch(e.hdrs, t.hdrs), "header:" \o HdrTag(o))
-                   \cup If(\E e \in A : SeqMatch(e.trls, t.trls), "trailer:" \o TrlTag(o))
+                   \cup If(\E e \in A : MdMatch(e.hdrs, t.hdrs, own), "header:" \o HdrTag(o))
+                   \cup If(\E e \in A : MdMatch(e.trls, t.trls, own), "trailer:" \o TrlTag(o))
                    \cup If(\E e \in A : e.srecv = t.srecv, "server-received:" \o TermTag(o))
                    \cup If(\E e \in A : e.reqmd = -2 \/ e.reqmd = t.reqmd, "request-metadata:" \o TermTag(o))
              IN IF parts = {} THEN {"combination:" \o (IF HdrTag(o) = "set-but-no-message-sent" THEN HdrTag(o) ELSE TermTag(o))}
                 ELSE parts)
-       \cup If(Len(t0.alias) = 0, "copy:" \o t0.alias[1])
+       \cup { "copy:" \o t0.alias[k] : k \in 1..Len(t0.alias) }
        \cup If(t0.leak = 0, "goroutine-left-behind:" \o TermTag(o))
 
 \* ---- calls that must be refused
